@@ -5,7 +5,7 @@
    every call goes through C05's svd_interface model (n_eigenvecs clamping, full_matrices choice, slicing, svd_flip). *)
 From Coq Require Import List Arith Bool Lia Reals.
 From TLV Require Import Base.PyList Base.Ops Base.Tensor Base.RSum Base.BigSum Model.Svd Proofs.SvdProofsAux Proofs.SvdProofs Proofs.SvdInterfaceProofs
-  Proofs.SvdWitness Model.Structure Model.StructureHooi Proofs.StructureConj Proofs.StructureConjR Proofs.StructureHooiConj.
+  Proofs.SvdWitness Proofs.SvdSymeigFull Proofs.SvdInterfaceAll Proofs.SvdSymeigBest Model.Structure Model.StructureHooi Proofs.StructureConj Proofs.StructureConjR Proofs.StructureHooiConj.
 Import ListNotations.
 Local Open Scope nat_scope.
 
@@ -93,3 +93,75 @@ End Bridge.
 Lemma bridge_hyps_ex : forall i (X : tens R) f, i < length [2] ->
   svd_contract (nth i [2] 0) 1 (mget Rops Mtall) f (orc_tall Mtall f).
 Proof. intros i X f Hi. simpl in Hi. assert (i = 0) by lia. subst. simpl. apply contract_tall. Qed.
+
+(* ------------------------------------------------------------------ method = 'symeig_svd' (eigh of the Gram matrix) *)
+(* C05's theorem interface_symeig_e2e: eigh is LAPACK's symmetric eigensolver (any function whose answer on the Gram matrix the code builds
+   meets eigh_contract2: W orthogonal, G W = W diag(lam)), epsd the machine-epsilon clip; the kept eigenvalues must exceed the clip (full
+   numerical rank: symeig_svd on rank-deficient input is a documented limitation registered under C05) *)
+Definition symeig_funs (eigh : list (list R) -> list R * list (list R)) (epsd : R) (d1 d2 : nat) (n : option nat)
+  : fname -> nat -> list (list R) -> triple R := fun _ _ X => symeig_svd Rops eigh sqrt epsd X d1 d2 n.
+Definition svd_interface_symeig_U eigh epsd (flip ub : bool) (d1 d2 r : nat) (M : list (list R)) : nat -> nat -> R :=
+  match svd_interface Rops (symeig_funs eigh epsd d1 d2 (Some r)) MSymeig d2 M (Some r) flip ub None None 0 sqrt 0%R with
+  | Ok (U, _, _) => mget Rops U
+  | Err => fun _ _ => 0%R
+  end.
+(* the hypotheses of C05's theorem for one call *)
+Definition symeig_call_ok (eigh : list (list R) -> list R * list (list R)) (epsd : R) (d1 d2 r : nat) (M : list (list R)) : Prop :=
+  let d := if d2 <? d1 then d1 else d2 in
+  let Gm := if d2 <? d1 then mmul Rops d1 M (transp Rops d2 M) else mmul Rops d2 (transp Rops d2 M) M in
+  rect d1 d2 M /\ 1 <= d1 /\
+  (forall G0, length (fst (eigh G0)) = d /\ rect d d (snd (eigh G0))) /\
+  eigh_contract2 d Gm (fst (eigh Gm)) (snd (eigh Gm)) /\
+  n_kept d1 d2 (Some r) <= Nat.min d1 d2 /\
+  (forall t, t < n_kept d1 d2 (Some r) -> (0 <= epsd < nth (d - 1 - t) (fst (eigh Gm)) 0)%R).
+Lemma svd_interface_symeig_U_unitary eigh epsd flip ub d1 d2 r M : symeig_call_ok eigh epsd d1 d2 r M ->
+  unitary_cols R 0%R 1%R Rplus Rmult (fun x => x) d1 (Nat.min r d1) (svd_interface_symeig_U eigh epsd flip ub d1 d2 r M).
+Proof.
+  unfold symeig_call_ok. cbv zeta. intros (HM & Hd & HSH & HC & Hk & Heps). unfold svd_interface_symeig_U.
+  destruct (svd_interface Rops (symeig_funs eigh epsd d1 d2 (Some r)) MSymeig d2 M (Some r) flip ub None None 0 sqrt 0%R) as [[[U Sg] V]|] eqn:E.
+  - pose proof (interface_symeig_e2e eigh (symeig_funs eigh epsd d1 d2 (Some r)) epsd M d1 d2 (Some r) _ _ flip ub 0 sqrt 0%R U Sg V
+                  HM Hd HSH (surjective_pairing _) HC Hk Heps (fun cl X => eq_refl) E) as H.
+    cbv zeta in H. destruct H as (_ & _ & HU & _).
+    apply orthonormal_unitary. eapply orthonormal_cols_sub; [|exact HU].
+    rewrite n_kept_spec in *. lia.
+  - exfalso. rewrite (interface_unfold _ MSymeig FSymeig) in E by reflexivity. discriminate.
+Qed.
+
+Section BridgeSymeig.
+  Variables (shape ranks : list nat).
+  Hypothesis Hlen : length ranks = length shape.
+  Variable eigh : list (list R) -> list R * list (list R).
+  Variable epsd : R.
+  Variables (flip ub : bool).
+  Variable unf0 : nat -> tens R -> list (list R).
+  Variable cols0 : nat -> tens R -> nat.
+  Variable unfU : nat -> tens R -> list (nat -> nat -> R) -> list (list R).
+  Variable colsU : nat -> tens R -> list (nat -> nat -> R) -> nat.
+  Hypothesis Hs0 : forall i X, i < length shape -> symeig_call_ok eigh epsd (nth i shape 0) (cols0 i X) (nth i ranks 0) (unf0 i X).
+  Hypothesis HsU : forall i X fs, i < length shape -> symeig_call_ok eigh epsd (nth i shape 0) (colsU i X fs) (nth i ranks 0) (unfU i X fs).
+  Variable imp : tens R -> tens R -> list (nat -> nat -> R) -> tens R.
+  Definition ssvd0 (i : nat) (X : tens R) : nat -> nat -> R :=
+    svd_interface_symeig_U eigh epsd flip ub (nth i shape 0) (cols0 i X) (nth i ranks 0) (unf0 i X).
+  Definition ssvdU (i : nat) (X : tens R) (fs : list (nat -> nat -> R)) : nat -> nat -> R :=
+    svd_interface_symeig_U eigh epsd flip ub (nth i shape 0) (colsU i X fs) (nth i ranks 0) (unfU i X fs).
+  (* HOOI whose SVD calls all go through method = 'symeig_svd' (the initialisation of tucker / partial_tucker with svd='symeig_svd'; the sweep of
+     the present code always uses the default method): orthonormal factors with min(rank_i, I_i) columns, core = projection *)
+  Theorem hooi_symeig_canonical ik mask tol_set n decisions X G0 fs0 :
+    ik = InitSvd \/ (0 < n /\ length fs0 = length shape) ->
+    let '(X', G', fs') := hooi_K R 0%R 1%R Rplus Rmult (fun x => x) shape ssvd0 ssvdU imp ik mask tol_set n decisions X G0 fs0 in
+    unitary_all R 0%R 1%R Rplus Rmult (fun x => x) shape (clipped shape ranks) fs' /\
+    (forall jdx, G' jdx = tproj R 0%R 1%R Rplus Rmult (fun x => x) shape fs' X' jdx) /\ (mask = false -> X' = X).
+  Proof.
+    apply (hooi_K_canonical R 0%R 1%R Rplus Rmult (fun x => x) shape (clipped shape ranks) (clipped_length shape ranks Hlen) ssvd0 ssvdU).
+    - intros i X0 Hi. rewrite (clipped_nth shape ranks Hlen) by exact Hi. apply svd_interface_symeig_U_unitary. now apply Hs0.
+    - intros i X0 fs Hi. rewrite (clipped_nth shape ranks Hlen) by exact Hi. apply svd_interface_symeig_U_unitary. now apply HsU.
+  Qed.
+End BridgeSymeig.
+(* non-vacuity (C05's witness: M = [[2]], Gram [[4]], eigenpair (4, e1), clip 1) *)
+Lemma symeig_call_ok_ex : symeig_call_ok (fun _ => ([4%R], [[1%R]])) 1%R 1 1 1 [[2%R]].
+Proof.
+  pose proof (symeig_interface_hyps_satisfiable (fun _ X => ([], [], [])) (fun _ X => ([], [], [])) (fun _ X => ([], [], []))) as H.
+  cbv zeta in H. destruct H as (H1 & H2 & H3 & H4 & H5 & _ & H7 & H8 & _).
+  unfold symeig_call_ok. cbv zeta. change (1 <? 1) with false. cbv iota.
+  split; [exact H1|]. split; [exact H2|]. split; [exact H3|]. split; [exact H5|]. split; [exact H7 | exact H8].
+Qed.
